@@ -1,13 +1,13 @@
 (** C03b -- the transport-header theorems of C03 at the level the interpreter executes: the library
     methods, as dispatched by [exec] on a heap of flow objects, and histories of calls.
-    Pinned statements only; proofs in Proofs/C03/{LibCalls,LibTcp,LibIcmp,LibUdp,LibFrame}.v.
+    Pinned statements only; proofs in Proofs/C03/{LibCalls,LibTcpOps,LibTcp,LibIcmp,LibUdp,LibFrame}.v.
     All theorems are partial-correctness statements ("whenever the call returns a value ..."); that a call
     with arguments accepted by the binder returns a value or a language-level error, never a panic,
     is C08 (Proofs/C08/LibSound.v). *)
 From RS Require Import Base.Bytes Base.Outcome Bind.Types Pkt.Csum Pkt.Hdrs Pkt.Packet Ez.Tcp Ez.Udp Ez.Icmp
   Interp.Val Interp.Eval Lib.LibBase Lib.StdLib Spec.Wire
   Proofs.C02.TcpIp Proofs.C02.OtherIp Proofs.C03.Transport
-  Proofs.C03.LibCalls Proofs.C03.LibTcp Proofs.C03.LibIcmp Proofs.C03.LibUdp Proofs.C03.LibFrame.
+  Proofs.C03.LibCalls Proofs.C03.LibTcpOps Proofs.C03.LibTcp Proofs.C03.LibIcmp Proofs.C03.LibUdp Proofs.C03.LibFrame.
 From RSGen Require Import Catalogue.
 Open Scope N_scope.
 
@@ -16,7 +16,8 @@ Open Scope N_scope.
     entry in [tcp_kinds] and breaks the proof), on a heap where the receiver is a well-formed flow, with a
     payload of bytes that fits a segment: packet-returning methods (open, client/server_message with any
     send_ack/frag_off/seq/ack override, client/server_segment, client/server_ack, client/server_close,
-    client/server_reset) return only checksummed segments ([tcp_good], see C03_tcp_good_verifies);
+    client/server_reset) return only packets satisfying [tcp_pkt_ok] = [tcp_good] (see C03_tcp_good_verifies) and
+    [tcp_wire] (the frame decodes to IPv4 between the flow's addresses + a verifying segment);
     client/server_raw_segment return bytes that verify for the flow's addresses; client/server_hdr
     return the bare PSH|ACK header with checksum field 0 (not a segment); client/server_hole return
     nothing.  The flow written back is well formed again, with the same sockets. *)
@@ -40,16 +41,17 @@ Theorem C03_tcp_history : forall e a cs h f vs h',
   /\ Forall2 (fun c v => tcp_call_on a c -> tcp_call_ok f c v) cs vs.
 Proof. exact tcp_history. Qed.
 
-(** ... hence every segment any history of a flow emits verifies against the pseudo-header of its own IPv4
-    header; a returned byte string is a raw segment verifying for the flow's addresses (client->server
-    or server->client) or the 20-byte header of client_hdr/server_hdr with checksum field 0 *)
+(** ... hence every segment any history of a flow emits verifies: each packet is a checksummed segment of the
+    model ([tcp_good]) AND its frame decodes, independently of the model, to an IPv4 header for protocol 6
+    between the flow's two addresses followed by a TCP segment that verifies against exactly those
+    addresses ([tcp_wire]); a returned byte string is a raw segment verifying for the flow's addresses
+    (client->server or server->client) or the 20-byte header of client_hdr/server_hdr with checksum 0 *)
 Theorem C03_tcp_history_verifies : forall e a cs h f vs h',
   nth_error h a = Some (OTcp f) -> flow_twf f ->
   Forall (tcp_call_on a) cs ->
   run_hist e cs h = Some (vs, h') ->
   Forall (fun v =>
-    (forall ps, conv_pktgen v = Ok ps ->
-       Forall (fun p => exists s, p = seg_packet s /\ tcp_ok (ip_src (ts_ip s)) (ip_dst (ts_ip s)) (seg_tcpseg s) = true) ps)
+    (forall ps, conv_pktgen v = Ok ps -> Forall (fun p => tcp_good p /\ tcp_wire f p) ps)
     /\ (forall b, v = VStr b ->
           tcp_ok (fst (tf_cl f)) (fst (tf_sv f)) b = true \/ tcp_ok (fst (tf_sv f)) (fst (tf_cl f)) b = true
           \/ (length b = 20%nat /\ u16_at b 16 = 0))) vs.
